@@ -328,6 +328,16 @@ def measurement_model(seed, n_per):
                 if not abs(c3 - 3 * c) <= 1e-9 * abs(3 * c) + 1e-300:
                     fails.append({'edge': name, 'vals': vals, 'law': 'chi2 not linear in Omega', 'chi2': c, 'chi2_3': c3})
                     continue
+                # ... linear for EVERY positive factor: a power of two scales every product exactly, so the value scales to the last bits
+                # (information of 1e-9 .. 1e-15: weak priors, other units)
+                pw = rng.choice([20, 30, 40, 50, -30])
+                e.information = Om * 2.0 ** -pw
+                cs = float(e.calc_chi2())
+                if not abs(cs - c * 2.0 ** -pw) <= 1e-9 * abs(c * 2.0 ** -pw):
+                    fails.append({'edge': name, 'vals': vals, 'law': 'chi2 not linear in Omega: information scaled by 2^%d gives %r, expected %r' % (-pw, cs, c * 2.0 ** -pw),
+                                  'information': (Om * 2.0 ** -pw).tolist()})
+                    continue
+                e.information = Om
                 # a consistent measurement has zero error
                 if name.startswith('odo'):
                     e.estimate = e.vertices[1].pose - e.vertices[0].pose
@@ -405,6 +415,10 @@ def measurement_model(seed, n_per):
             for e in g0._edges:
                 if kind == 'SE2' and getattr(e, 'offset', None) is not None:
                     e.offset = _P2.identity()                       # EDGE_SE2_XY carries no offset
+                if kind == 'SE3' and len(np.asarray(e.estimate)) == 7 and rng.random() < 0.3:
+                    # a measured half turn, scalar part exactly zero and written with either sign of zero ("0.0" / "-0.0" are the same number)
+                    ax_ = rng.choice([[0.0, 0.0, 1.0], [1.0, 0.0, 0.0], [0.6, 0.8, 0.0], [0.0, -0.6, 0.8]])
+                    e.estimate = type(e.estimate)(np.asarray(e.estimate)[:3], list(ax_) + [rng.choice([0.0, -0.0])])
                 if kind == 'SE3' and len(np.asarray(e.estimate)) == 7 and float(e.estimate[6]) < 0:
                     e.estimate = type(e.estimate)(np.asarray(e.estimate)[:3], -np.asarray(e.estimate)[3:])   # the loader's canonical sign (q and -q: same rotation)
             base = rng.choice([0, -40, 2 ** 31 - 3, 2 ** 53 - 3, 2 ** 53, 2 ** 53 + 2 ** 20, 2 ** 62, -(2 ** 53) - 9])
@@ -561,6 +575,14 @@ def build_graph(rng, kind, nv=None, landmarks=True, noise=0.02, pert=0.05, info_
                     off = PoseSE3([rng.gauss(0, .3) for _ in range(3)], rand_unit_quat(rng))
                 else:
                     off = P([rng.gauss(0, .3) for _ in range(d)])
+                if not manhattan and kind in ('SE2', 'SE3') and rng.random() < 0.25:
+                    # a sensor mounted AT the body origin but looking sideways (translation exactly zero, rotation not the identity), or mounted on a
+                    # lever arm without rotation
+                    if rng.random() < 0.7:
+                        off = PoseSE2([0.0, 0.0], rng.choice([math.pi / 2, -math.pi / 2, rng.uniform(-3, 3)])) if kind == 'SE2' \
+                            else PoseSE3([0.0, 0.0, 0.0], rand_unit_quat(rng))
+                    else:
+                        off = PoseSE2([rng.gauss(0, .3), rng.gauss(0, .3)], 0.0) if kind == 'SE2' else PoseSE3([rng.gauss(0, .3) for _ in range(3)], [0.0, 0.0, 0.0, 1.0])
                 z = ((truth[a] + off).inverse + lp)
                 if noise:
                     z = PP(np.asarray(z) + np.array([rng.gauss(0, noise) for _ in range(ce.DIM[pk])]))
